@@ -240,6 +240,8 @@ def val_ite(c, a, b):
         return SOpt(z3.If(c, a.defined, b.defined), val_ite(c, a.val, b.val))
     if isinstance(a, SNone) and isinstance(b, SNone):
         return a
+    if isinstance(a, STT) or isinstance(b, STT):
+        raise Unsupported('a slot of a list of tensor trains is read at an index that may or may not be the materialised one')
     if isinstance(a, SNone) and isinstance(b, SArr):
         return SOpt(z3.Not(zb(c)), b)
     if isinstance(b, SNone) and isinstance(a, SArr):
@@ -314,6 +316,18 @@ class SList:
         the prover under the current path condition (a read of slot i - 1 after a write to slot i sees the old entry, not a
         merge of both)"""
         ws = self.__dict__.get('writes')
+        if self.kind == 'tt' and self.items is None:
+            # a list of mutable tensor trains: the element read is materialised as one object and logged as a slot write, so that
+            # every later read of the syntactically same slot sees the same (possibly mutated) object
+            for i0, val, old in reversed(ws or []):
+                same = same_index(idx, i0)
+                if same is True:
+                    return val
+                if same is None:
+                    raise Unsupported('read of a slot of a list of tensor trains that may or may not be the slot read before')
+            obj = (ws[0][2] if ws else self.fn)(zi(idx))
+            self.set(idx, obj)
+            return obj
         if not ws or getattr(self, 'transients', None) or self.items is not None:
             return self.get(idx)
         for i0, val, old in reversed(ws):
@@ -439,7 +453,7 @@ class SList:
         """immutable view (same ref) for old() references"""
         v = SList(self.ref, self.length, self.fn, None if self.items is None else list(self.items), self.kind)
         v.transients = dict(getattr(self, 'transients', {}) or {})
-        for extra in ('slice_of', 'split_points', 'role_tag', 'index_role', 'role_strict', 'stride_writes'):
+        for extra in ('slice_of', 'split_points', 'role_tag', 'index_role', 'role_strict', 'stride_writes', 'writes'):
             if extra in self.__dict__:
                 setattr(v, extra, self.__dict__[extra])
         return v
